@@ -576,6 +576,44 @@ func c04Shapes() []*profile.Profile {
 	return out
 }
 
+// c04CancelShapes: stacks (leaf first) whose values cancel exactly on one entry but not on another.
+func c04CancelShapes() []*profile.Profile {
+	var out []*profile.Profile
+	mk := func(stacks [][]int, vals [][]int64) {
+		names := []string{"main", "F", "G", "H"}
+		p := &profile.Profile{SampleType: []*profile.ValueType{{Type: "samples", Unit: "count"}, {Type: "cpu", Unit: "count"}}}
+		m := &profile.Mapping{ID: 1, Start: 0x1000, Limit: 0x9000, File: "bin/prog", HasFunctions: true}
+		p.Mapping = []*profile.Mapping{m}
+		for i, nm := range names {
+			p.Function = append(p.Function, &profile.Function{ID: uint64(i + 1), Name: nm, SystemName: nm, Filename: nm + ".go", StartLine: int64(i)})
+		}
+		for i := range names {
+			p.Location = append(p.Location, &profile.Location{ID: uint64(i + 1), Mapping: m, Address: uint64(0x1000 + 16*i),
+				Line: []profile.Line{{Function: p.Function[i], Line: int64(10 * (i + 1))}}})
+		}
+		// location 5: G inlined into F
+		p.Location = append(p.Location, &profile.Location{ID: 5, Mapping: m, Address: 0x1100,
+			Line: []profile.Line{{Function: p.Function[2], Line: 31}, {Function: p.Function[1], Line: 21}}})
+		for i, st := range stacks {
+			s := &profile.Sample{Value: vals[i]}
+			for _, li := range st {
+				s.Location = append(s.Location, p.Location[li])
+			}
+			p.Sample = append(p.Sample, s)
+		}
+		out = append(out, p)
+	}
+	// 0 main, 1 F, 2 G, 3 H, 4 [G inlined in F]
+	mk([][]int{{1, 0}, {2, 1, 0}, {3, 0}}, [][]int64{{1, 7}, {1, -7}, {1, 3}})                // F: cum 0, flat 7
+	mk([][]int{{2, 1, 0}, {2, 1, 0}, {3, 0}}, [][]int64{{1, 5}, {1, -5}, {1, 4}})             // F and G: both 0
+	mk([][]int{{1, 0}, {2, 1, 0}, {3, 0}}, [][]int64{{2, 7}, {-2, -7}, {1, 3}})               // the divisors cancel too
+	mk([][]int{{1, 2, 1, 0}, {2, 1, 0}, {0}}, [][]int64{{1, 4}, {1, -4}, {1, 1}})             // recursion: F cum 0 flat 4, G cum 0 flat -4
+	mk([][]int{{1, 0}, {1, 0}, {0}}, [][]int64{{1, 6}, {1, -6}, {1, 1}})                      // a leaf that vanishes with its edge
+	mk([][]int{{4, 0}, {1, 0}, {2, 4, 0}}, [][]int64{{1, 2}, {1, -2}, {1, 9}})                // inlined pair against the plain location
+	mk([][]int{{1, 0}, {2, 1, 0}, {3, 2, 1, 0}}, [][]int64{{1, 7}, {1, -7}, {1, 0}})          // a (…,0) sample on top
+	return out
+}
+
 func c04RandomOpts(r *Rng, p *profile.Profile, format string) c04Opts {
 	o := c04Opts{Format: format}
 	o.Gran = PickS(r, c04Grans)
@@ -659,8 +697,44 @@ func runC04(c *Ctx) {
 			}
 		}
 	}
+	// exact cancellations: cum 0 with flat != 0, flat 0 with cum != 0, both 0 (an entry is hidden only
+	// when BOTH are 0), through newGraph and newTree, every form
+	for _, p := range c04CancelShapes() {
+		p = p.Copy()
+		for _, gr := range c04Grans {
+			for _, f := range forms {
+				if c.Tier != "thorough" && !r.P(1, 3) {
+					continue
+				}
+				o := c04Opts{Format: f.format, Gran: gr, NoInlines: r.P(1, 3), Mean: r.P(1, 3), CallTree: r.Bool(), CumSort: r.P(1, 3), DropNeg: r.P(1, 6)}
+				o.SampleIndex = PickS(r, []string{"", "1", "cpu"})
+				emit("cancel-shape", p, o, f.form)
+			}
+		}
+	}
+	// random stacks whose values come from a tiny signed set, so that sums cancel exactly all the time
+	for k := 0; k < c.Budget(30, 600); k++ {
+		kn := c04Knobs(r)
+		kn.Extreme, kn.EmptyStacks = false, false
+		kn.MaxSamples, kn.MaxLocs, kn.MaxFuncs = 6, 4, 3
+		p := GenProfile(r, kn)
+		c04FixUnits(p)
+		c04MakeTextable(r, p)
+		for _, s := range p.Sample {
+			for i := range s.Value {
+				s.Value[i] = PickI(r, []int64{1, -1, 2, -2, 3, -3, 1, -1})
+			}
+		}
+		p = p.Copy()
+		for j := 0; j < 8; j++ {
+			f := forms[r.Intn(len(forms))]
+			o := c04RandomOpts(r, p, f.format)
+			o.TagRoot, o.TagLeaf = "", ""
+			emit("cancel-random", p, o, f.form)
+		}
+	}
 	// random profiles x sampled option combinations x forms
-	nprof := c.Budget(120, 2000)
+	nprof := c.Budget(100, 2000)
 	for k := 0; k < nprof; k++ {
 		kn := c04Knobs(r)
 		textable := r.P(2, 3)
@@ -673,7 +747,7 @@ func runC04(c *Ctx) {
 			c04MakeTextable(r, p)
 		}
 		p = p.Copy() // what is dumped is what every report copy starts from (C01 normalisation applied once)
-		ncomb := 14
+		ncomb := 12
 		for j := 0; j < ncomb; j++ {
 			f := forms[r.Intn(len(forms))]
 			if f.text && !textable {
